@@ -29,6 +29,7 @@ def _worker(args):
     patches = mod.patches(case) if hasattr(mod, "patches") else harness.standard_patches()
     opts = dict(timeout_ms=30000, max_paths=20000, n_validate=2)
     opts.update(case.get("opts", {}))
+    float_strict = bool(opts.pop("float_strict", False))
     try:
         r = harness.run_case(prop, case["name"], body, case.get("kwargs", {}), patches, seed=seed,
                              expect_tags=case.get("expect_tags", ()), **opts)
@@ -38,6 +39,7 @@ def _worker(args):
                  inconclusive=[dict(label="worker-crash", why="".join(traceback.format_exception(e))[-1500:])], wall_s=0)
     r["body"] = case["body"]
     r["kwargs_raw"] = case.get("kwargs", {})
+    r["float_strict"] = float_strict
     return r
 
 
@@ -325,7 +327,11 @@ def main(argv=None):
             key = (x.get("label"), json.dumps(x.get("values"), sort_keys=True, default=str))
             # a clause that fails on a sampled input of the real code is reported when the exact model of the SAME case also has a failing clause
             # (same label and input, or -- clauses are phrased per mode -- any clause of the case)
-            if (key in both or (x.get("kind") == "float-goal" and exact_fail)) and key not in promoted and not match_known(known, prop, r["case"], x.get("label", "")):
+            # float_strict cases: closed-form numpy code without an iterative solver, whose float64 run is reproducible to ~1e-12 while clauses are
+            # compared at 1e-6: a clause failing on the REAL code for a concrete in-domain input is a counterexample in itself (used where the failure
+            # is invisible to real arithmetic by construction: integer-typed arrays truncating real values)
+            strict = x.get("kind") == "float-goal" and r.get("float_strict")
+            if (key in both or strict or (x.get("kind") == "float-goal" and exact_fail)) and key not in promoted and not match_known(known, prop, r["case"], x.get("label", "")):
                 # the clause fails on a concrete input both in exact rational arithmetic (patched code) and on the real code: a replayable counterexample
                 promoted.add(key)
                 rec = dict(property=prop, case=r["case"], body=r["body"], kwargs=r["kwargs_raw"], label=x["label"], values=x["values"])
